@@ -214,6 +214,51 @@ def run(chk):
     chk.section("liveness-join", lambda: chk.prove_paths(
         "LivenessAnalysis.join:keys==union-of-keys/\\witness-from-some-argument", e.explore(t_join), post_join, func=f"{MOD}:LivenessAnalysis.join"))
 
+    # ------------------------------------------------------------------ frames: join / apply_bb leave their arguments unchanged
+    # (the fixpoint proof treats the dictionaries cached in vals_before as immutable values)
+    def live_frames():
+        spec = e.loop_specs.pop(f"{MOD}:LivenessAnalysis.join", None)     # concrete argument lists: the loop is unrolled
+        same = lambda a, b: z3.ForAll([x_], z3.Select(a, x_) == z3.Select(b, x_))  # noqa: E731
+        for n in (1, 2, 3):
+            Ks = [z3.Const(f"FK{k}", VSet) for k in range(n)]
+            Ws = [z3.Const(f"FW{k}", z3.ArraySort(Var, BB)) for k in range(n)]
+
+            def t(it, n=n, Ks=Ks, Ws=Ws):
+                LA = it.lookup_global(e.module(MOD), "LivenessAnalysis")
+                la = SObj(LA, {"stats": mk_stats(), "_initial": SDict(EVAR, elem_codec(EBB), INIT, [INITV]), "_include_unreachable": True})
+                ts = [SDict(EVAR, elem_codec(EBB), Ks[k], [Ws[k]]) for k in range(n)]
+                return it.call(it.getattr(la, "join"), list(ts), {}), ts
+
+            def post(p, n=n, Ks=Ks, Ws=Ws):
+                if p.kind != "return" or not isinstance(p.value[0], SDict):
+                    return z3.BoolVal(False)
+                r, ts = p.value
+                return z3.And(z3.ForAll([x_], z3.Select(r.dom, x_) == z3.Or(*[z3.Select(K, x_) for K in Ks])),
+                              *[same(ts[k].dom, Ks[k]) for k in range(n)],
+                              *[z3.ForAll([x_], z3.Implies(z3.Select(Ks[k], x_), z3.Select(ts[k].cols[0], x_) == z3.Select(Ws[k], x_))) for k in range(n)])
+            chk.prove_paths(f"LivenessAnalysis.join[{n}-arguments]:keys==union/\\every-argument-dictionary-left-unchanged", e.explore(t), post, func=f"{MOD}:LivenessAnalysis.join")
+        LK, LW, bb0 = z3.Const("FLK", VSet), z3.Const("FLW", z3.ArraySort(Var, BB)), z3.Const("FB", BB)
+
+        def t_apply(it):
+            LA = it.lookup_global(e.module(MOD), "LivenessAnalysis")
+            it.ctx.assume(z3.Select(STATS_DOM, bb0))
+            la = SObj(LA, {"stats": mk_stats(), "_initial": SDict(EVAR, elem_codec(EBB), INIT, [INITV]), "_include_unreachable": True})
+            live = SDict(EVAR, elem_codec(EBB), LK, [LW])
+            return it.call(it.getattr(la, "apply_bb"), [live, EBB.wrap(bb0)], {}), live
+
+        def post_apply(p):
+            if p.kind != "return" or not isinstance(p.value[0], SDict):
+                return z3.BoolVal(False)
+            r, live = p.value
+            used = lambda x: z3.Select(z3.Select(USED, bb0), x)  # noqa: E731
+            asg = lambda x: z3.Select(z3.Select(ASG, bb0), x)  # noqa: E731
+            return z3.And(z3.ForAll([x_], z3.Select(r.dom, x_) == z3.Or(used(x_), z3.And(z3.Select(LK, x_), z3.Not(asg(x_))))),
+                          same(live.dom, LK), z3.ForAll([x_], z3.Implies(z3.Select(LK, x_), z3.Select(live.cols[0], x_) == z3.Select(LW, x_))))
+        chk.prove_paths("LivenessAnalysis.apply_bb:keys==used+(live_after-assigned)/\\live_after-left-unchanged", e.explore(t_apply), post_apply, func=f"{MOD}:LivenessAnalysis.apply_bb")
+        if spec is not None:
+            e.loop_specs[f"{MOD}:LivenessAnalysis.join"] = spec
+    chk.section("liveness-frames", live_frames)
+
     # ------------------------------------------------------------------ BackwardAnalysis.run (liveness instance)
     def backward(incl):
         def run_inv(it, fr, incl=incl):
